@@ -29,7 +29,8 @@ import zipfile
 from machines.common import DOC_FILE, SP_FILE, cid, norm, quiet, raw_project, same, viol, write_payload
 from simcore.driver import EngineBase, generic_shrink
 from simcore.sched import install_locks, install_pools
-from simcore.world import MUTATING, O, SimWorld, snapshot
+from simcore.faultenum import run_op
+from simcore.world import MUTATING, FaultPlan, O, SimWorld, restore, snapshot
 
 UNIVERSES = {
     "int_prefix": {"a": [1, 10, 100, 11]},
@@ -142,7 +143,10 @@ class Engine(EngineBase):
         move = target == "dir" and rng.random() < 0.15
         return {"knobs": knobs, "universe": uni, "jobs": jobs, "path": path, "target": target, "move": move,
                 "schema": schema, "conflict_job": rng.randrange(0, 12) if rng.random() < 0.35 else None,
-                "foreign": rng.random() < 0.5, "import_sync": rng.random() < 0.12}
+                "foreign": rng.random() < 0.5, "import_sync": rng.random() < 0.12,
+                # positions (fractions of the import's reads of the exported data) at which one read fails
+                "place": "prefix" if rng.random() < 0.1 else None,
+                "io_fault": sorted(rng.random() for _ in range(rng.randrange(1, 4))) if rng.random() < 0.3 else None}
 
     def shrink(self, scenario):
         jobs = scenario["jobs"]
@@ -314,6 +318,13 @@ class Run:
         snap_src = snapshot(src_path, mtimes=True)
         ids = sorted(cid(j["sp"]) for j in sc["jobs"])
         tname = "export" + ("" if sc["target"] == "dir" else sc["target"])
+        if sc.get("place") == "prefix" and sc["target"] == "dir":
+            # the export lies inside the importing project's directory, next to its workspace and with a name
+            # that starts like it (it is not part of the workspace)
+            tname = "dst/workspace_export"
+            with world.observing():
+                os.makedirs(world.p("dst"), exist_ok=True)
+            self.probe("export_next_to_workspace")
         target = world.p(tname)
         path = sc["path"]
         sorted_ids = sorted(ids)
@@ -440,6 +451,9 @@ class Run:
                    "C16:import:entries-outside-job-directories:" + sc["target"])
         if not move and snapshot(src_path, mtimes=True) != snap_src:
             self.v("C16:import:source-changed", "import changed the exported source project")
+        # ---- the same import when one read of the exported data fails ---------------------------
+        if sc.get("io_fault") and ids and not move:
+            self.import_under_io_error(target, tname, schema_arg, src_raw, ikw, schema_kind)
         # ---- import onto an existing id ---------------------------------------------------------
         if sc.get("conflict_job") is not None and ids:
             self.probe("import_onto_existing")
@@ -464,13 +478,65 @@ class Run:
                        f"importing onto existing job {job.id[:8]} ended with "
                        f"{type(qexc).__name__ if qexc else 'success'}")
 
+    def import_under_io_error(self, target, tname, schema_arg, src_raw, ikw, schema_kind):
+        """One open / read / directory listing of the exported data fails with EIO while it is imported
+        into another empty project: the call raises, or the import is complete all the same - never a
+        normal return with jobs, documents or files missing."""
+        world, signac, sc = self.world, self.signac, self.sc
+        p3 = world.p("dst3")
+        signac.init_project(p3)
+        pre = snapshot(world.root, mtimes=True)
+
+        def op():
+            signac.Project(p3).import_from(target, schema=schema_arg, **ikw)
+
+        status, info = run_op(world, op, FaultPlan(), timeout=50.0)
+        with world.observing():
+            restore(world.root, pre)
+        if status != "ok" or info.get("outcome") != "ok":
+            raise RuntimeError(f"fault-free trace run of the import ended with {status}: {str(info)[-300:]}")
+        reads = [t for t in info["trace"] if t[1] in ("open", "read", "listdir", "scandir")
+                 and str(t[2] or "").startswith(tname)]
+        if not reads:
+            self.probe("io_fault_nothing_to_fail")
+            return
+        for frac in sc["io_fault"]:
+            t = reads[min(len(reads) - 1, int(frac * len(reads)))]
+            fault = {"step": t[0], "kind": "errno", "errno": "EIO"}
+            status, info = run_op(world, op, FaultPlan([fault]), after=lambda info: raw_project(p3), timeout=50.0)
+            with world.observing():
+                restore(world.root, pre)
+            if status != "ok":
+                raise RuntimeError(f"import under {fault} ended with {status}: {str(info)[-300:]}")
+            if not info.get("fired"):
+                continue
+            self.res["stats"]["faults"]["errno"] = self.res["stats"]["faults"].get("errno", 0) + 1
+            self.res["keys"].append(f"iofault|{sc['target']}|{schema_kind}|{t[1]}|{info['outcome']}")
+            if info["outcome"] != "ok":
+                self.probe("io_fault_raised")
+                continue
+            got = info["after"]
+            complete = set(got) == set(src_raw) and all(
+                same(src_raw[j]["sp"][1], got[j]["sp"][1]) and src_raw[j]["files"] == got[j]["files"]
+                and same(src_raw[j]["doc"][1] if src_raw[j]["doc"][0] == "ok" else {},
+                         got[j]["doc"][1] if got[j]["doc"][0] == "ok" else {}) for j in src_raw)
+            if complete:
+                self.probe("io_fault_tolerated")
+                continue
+            missing = sorted(set(src_raw) - set(got))
+            self.v("C16:import:io-error-swallowed",
+                   f"{t[1]} of {t[2]} failed with EIO during import_from ({sc['target']}, schema {schema_kind}); "
+                   f"the call returned normally but the project lacks {[m[:8] for m in missing]} or differs in "
+                   f"{[j[:8] for j in src_raw if j in got and (src_raw[j]['files'] != got[j]['files'])][:3]}",
+                   f"C16:import:io-error-swallowed:{sc['target']}:{t[1]}")
+
     @quiet
     def stray(self, project_path, ids):
         """Entries in the importing project that are not below an imported job's directory."""
         out = []
         ws = os.path.join(project_path, "workspace")
         for r, e in snapshot(project_path).items():
-            if r.startswith(".signac") or r == "workspace":
+            if r.startswith(".signac") or r == "workspace" or r.split("/")[0] == "workspace_export":
                 continue
             if r.startswith("workspace/"):
                 top = r.split("/")[1]
@@ -489,7 +555,7 @@ class Run:
                 try:
                     with open(os.path.join(path, SP_FILE), "rb") as f:
                         return json.loads(f.read().decode())
-                except OSError:
+                except (FileNotFoundError, NotADirectoryError):
                     return None
             return fn, "callable"
         if kind == "string" and isinstance(sc["path"], str) and "auto" not in sc["path"] \
